@@ -263,6 +263,8 @@ async def fake_run(self, args, cwd, stdout=None, stderr=None, check=False, **kw)
     w.execs.append(key)
     if w.crashed:
         raise Crash()
+    for _ in range(getattr(w, 'delays', {}).get(key, 0)):
+        await asyncio.sleep(0)             # the script takes a while: other tasks of a parallel build run meanwhile
     h = hashlib.sha1()
     # weakly declared variables (W) are visible but by contract never influence a result
     h.update(repr((spec.setupScript, spec.mainScript, sorted((k, v) for k, v in spec.env.items() if k != 'W'))).encode())
@@ -687,7 +689,7 @@ def closure(k):
     return out
 
 
-def orchestration(fail, jobs, keep):
+def orchestration(fail, jobs, keep, slow=0):
     install()
     cwd = os.getcwd()
     try:
@@ -699,6 +701,10 @@ def orchestration(fail, jobs, keep):
         extra = ['-j%d' % jobs] + (['-k'] if keep else [])
         if fail >= 0:
             w.fault = ('fail', STEP_KEYS[fail])
+        if slow:
+            # every script but the failing one takes some scheduler rounds (slow 1: all the same, 2: staggered)
+            w.delays = {k: (4 if slow == 1 else 2 + 3 * i) for i, k in enumerate(sorted(DEPS))
+                        if fail < 0 or k != STEP_KEYS[fail]}
         o, outs, res = invoke(w, st, False, extra)
         ex = list(w.execs)
         if len(ex) != len(set(ex)):
@@ -731,18 +737,20 @@ def orchestration(fail, jobs, keep):
         os.chdir(cwd)
 
 
-def check_c06(fail: int, jobs: int, keep: bool) -> bool:
+def check_c06(fail: int, jobs: int, keep: bool, slow: int) -> bool:
     """
     pre: -1 <= fail < 8
     pre: 1 <= jobs <= 3
+    pre: 0 <= slow <= 2
     post: _
     """
     V.enter()
     f = V.concretize(fail, 8, -1)
     j = V.concretize(jobs, 4, 1)
+    sl = V.concretize(slow, 3)
     k = bool(keep)
     with V.fast():
-        ok, fact = orchestration(f, j, k)
+        ok, fact = orchestration(f, j, k, sl)
     return V.verdict(ok, fact)
 
 
